@@ -733,7 +733,10 @@ Proof.
   destruct (sv_eval p) as [|kc sv] eqn:Esv.
   - rewrite write_lazy in H by auto. inversion H; subst. rewrite V. reflexivity.
   - destruct (is_bam f) eqn:Eb.
-    + destruct f; discriminate.
+    + destruct f; try discriminate. simpl in H. destruct (x_es x) eqn:Ee; try discriminate. inversion H; subst.
+      assert (Hv : view x = []).
+      { pose proof (view_length x (proj1 I)) as L. rewrite Ee in L. destruct (view x); [reflexivity|discriminate]. }
+      rewrite <- V, Hv. reflexivity.
     + rewrite write_lazy in H by auto. inversion H; subst. rewrite V. reflexivity.
 Qed.
 
